@@ -2,6 +2,7 @@
 From Coq Require Import List Bool Arith NArith QArith.
 Import ListNotations.
 Require Import Coin CoinWord Rare Chain XorConv.
+Require GenProofs_FrameNoise.
 
 (* the coin stage of biased_randomize_bits: exactly p_top_bits of the 256 equally likely 8-coin strings yield a 1, for every
    p_top_bits < 128 (every probability the stage is used for) *)
@@ -30,5 +31,9 @@ Theorem C05_depolarize1_as_independent_mechanisms :
   conv (q, sx) (conv (q, sz) (conv (q, N.lxor sx sz) d)) t ==
   (1 - p) * d t + (p / 3) * d (N.lxor t sx) + (p / 3) * d (N.lxor t sz) + (p / 3) * d (N.lxor t (N.lxor sx sz)).
 Proof. exact depolarize1_independent. Qed.
+(* the bulk sampler's Pauli noise routines, regenerated from source: X/Y/Z_ERROR flip the documented Pauli; for DEPOLARIZE1/2 the drawn
+   p = 1 + rng() % K maps bijectively onto the non-identity Paulis (pairs): the documented uniform mixture *)
+Theorem C05_frame_noise_routines_are_documented_mixtures : GenProofs_FrameNoise.frame_noise_all_ok = true.
+Proof. exact GenProofs_FrameNoise.frame_noise_routines_are_documented_mixtures. Qed.
 Print Assumptions C05_coin_stage_probability. Print Assumptions C05_word_model_lanes_are_coin_stages.
 Print Assumptions C05_gap_sampling_is_bernoulli. Print Assumptions C05_chain_is_disjoint.
